@@ -7,6 +7,7 @@
 package verif
 
 import (
+	"encoding/json"
 	"context"
 	"fmt"
 	"math/big"
@@ -243,6 +244,57 @@ func SDKContext(ctx context.Context) sdk.Context { return sdk.UnwrapSDKContext(c
 // EncodeICS20 is the ICS-20 packet data encoding (JSON).
 func EncodeICS20(d transfertypes.FungibleTokenPacketData) []byte { return d.GetBytes() }
 
+// EncodeICS20Wire is the same packet data in another wire form that every JSON decoder maps to the same fields:
+// 0 canonical (GetBytes: sorted keys, empty fields omitted), 1 every field present, also the empty ones, keys in reverse
+// order, 2 empty fields omitted, first character of every value written as a \u escape, white space between the tokens.
+// Symbolically the document is abstract in all forms (its bytes exist only natively); a decoder leaves the fields that
+// are absent from the document (forms 0 and 2) as they were in its target.
+func EncodeICS20Wire(d transfertypes.FungibleTokenPacketData, wire int) []byte {
+	if wire == 0 {
+		return d.GetBytes()
+	}
+	type kv struct{ k, v string }
+	fields := []kv{{"amount", d.Amount}, {"denom", d.Denom}, {"memo", d.Memo}, {"receiver", d.Receiver}, {"sender", d.Sender}}
+	if wire == 1 {
+		for i, j := 0, len(fields)-1; i < j; i, j = i+1, j-1 {
+			fields[i], fields[j] = fields[j], fields[i]
+		}
+	}
+	var sb strings.Builder
+	sb.WriteString("{")
+	first := true
+	for _, f := range fields {
+		if wire == 2 && f.v == "" {
+			continue
+		}
+		q, err := json.Marshal(f.v)
+		if err != nil {
+			panic(Diverged{"field cannot be marshalled natively"})
+		}
+		qs := string(q)
+		if wire == 2 && len(f.v) > 0 && f.v[0] >= 0x20 && f.v[0] < 0x7f && f.v[0] != '"' && f.v[0] != '\\' && f.v[0] != '<' && f.v[0] != '>' && f.v[0] != '&' {
+			qs = fmt.Sprintf("\"\\u%04x", f.v[0]) + qs[2:]
+		}
+		if !first {
+			sb.WriteString(",")
+		}
+		first = false
+		if wire == 2 {
+			sb.WriteString("\n  ")
+		}
+		sb.WriteString("\"" + f.k + "\":")
+		if wire == 2 {
+			sb.WriteString(" ")
+		}
+		sb.WriteString(qs)
+	}
+	if wire == 2 {
+		sb.WriteString("\n")
+	}
+	sb.WriteString("}")
+	return []byte(sb.String())
+}
+
 // EncodeICS20Unknown is ICS-20 packet data with an additional unknown field: JSON that a lenient decoder (encoding/json)
 // accepts but the strict proto JSON codec of the transfer application refuses.
 func EncodeICS20Unknown(d transfertypes.FungibleTokenPacketData) []byte {
@@ -264,6 +316,12 @@ func EncodeMemo(w *core.PayloadWrapper, extraRootKeys int) string {
 		s = s[:len(s)-1] + fmt.Sprintf(",\"extra%d\":1}", k)
 	}
 	return s
+}
+
+// EncodeMemoTail is EncodeMemo followed by bytes after the closing brace: 0 nothing, 1 a second closing brace, 2 a word,
+// 3 a second document, 4 white space only (the only tail that leaves the memo a JSON document).
+func EncodeMemoTail(w *core.PayloadWrapper, extraRootKeys, tail int) string {
+	return EncodeMemo(w, extraRootKeys) + []string{"", "}", " trailing", ` {"orbiter":null}`, "\n \t"}[tail]
 }
 
 // DecodeJSON is ProtoCodec.UnmarshalJSON (with interface unpacking).
@@ -288,6 +346,31 @@ func Atomically(ctx sdk.Context, f func(ctx sdk.Context) error) error {
 		write()
 	}
 	return err
+}
+
+// AtomicallyOrAbort is Atomically for code that may panic: baseapp recovers a panic of a message handler, fails the
+// transaction and discards its writes (E1). aborted reports that this happened. Only for properties that are not about
+// panics themselves (C14 treats every reachable panic as a violation).
+func AtomicallyOrAbort(ctx sdk.Context, f func(ctx sdk.Context) error) (err error, aborted bool) {
+	cctx, write := ctx.CacheContext()
+	defer func() {
+		if r := recover(); r != nil {
+			switch x := r.(type) {
+			case AssumeFalse, Diverged:
+				panic(r)
+			case string:
+				if strings.HasPrefix(x, "verif:") {
+					panic(r)
+				}
+			}
+			err, aborted = nil, true
+		}
+	}()
+	err = f(cctx)
+	if err == nil {
+		write()
+	}
+	return err, false
 }
 
 // StateDigest is a digest of everything the module has in its store (natively: all key/value pairs of the
